@@ -36,6 +36,7 @@ func TestFaultsAfterPlaintextExists(t *testing.T) {
 		}
 		for i := 0; i < allocN; i++ {
 			runChecked(t, clone(world.FaultAt{Target: "alloc", Rel: i}), op)
+			runChecked(t, clone(world.FaultAt{Target: "alloc-consumed", Rel: i}), op)
 		}
 		// a key secret cannot be made readable, or cannot be made inaccessible again after its
 		// callback ran (the accessor then returns the callback's result together with an error)
